@@ -384,8 +384,20 @@ impl C18 {
             Tier::Quick => 20_000,
             Tier::Thorough => 400_000,
         };
+        // every 12th scenario: a schedule of more than 2^32 inner loops towards kt_finish, observed
+        // through its first six loops (a threshold every loop meets ends each run there): the
+        // factor is then 1 to within 1e-9, whatever 32-bit arithmetic makes of the loop count
+        let until_converged = i % 12 == 8 && kt_start > 0.0 && kt_finish.is_some() && kt_ratio.is_none();
+        let (steps, inner) = if until_converged {
+            let inner = *rng.pick(&[25u64, 50]);
+            let loops = *rng.pick(&[1u64 << 32, (1 << 32) + 1, (1 << 32) + 4, (1 << 32) + 1000, (1 << 33) + 3, 1 << 40]);
+            (loops * inner, inner)
+        } else {
+            (steps, inner)
+        };
         J::obj()
             .set("engine", J::str("e1-landscape"))
+            .set("until_converged", J::Bool(until_converged))
             .set("steps", J::uint(steps))
             .set("inner_steps", J::uint(inner))
             .set("kt_start", J::f64bits(kt_start))
@@ -429,7 +441,7 @@ impl Check for C18 {
         "C18"
     }
     fn rule(&self) -> String {
-        "scenario i: (kt_start, kt_finish | kt_ratio | neither, L in {1,2,3,5,10,20} inner loops of 25..100 steps or L in {30,60,100} loops of 1..3 steps, non-multiples included) from splitmix(VERIF_SEED,'C18',i); staircase landscape with n = 2*steps parameters and a ladder of rung sizes d spanning the expected temperatures; optimiser runs with consecutive seeds are pooled until every loop has the target number of exact-d downhill trials. Per (loop, rung) the acceptance frequency gives a Hoeffding interval for kT. Non-trivial: at least one (loop, rung) cell with both accepted and rejected trials (or, for kt_start = 0, at least 1000 downhill trials). Distinct: hash over all pooled histories.".into()
+        "scenario i: (kt_start, kt_finish | kt_ratio | neither, L in {1,2,3,5,10,20} inner loops of 25..100 steps or L in {30,60,100} loops of 1..3 steps, non-multiples included; every 12th scenario a kt_finish schedule of 2^32 .. 2^40 loops observed through its first six) from splitmix(VERIF_SEED,'C18',i); staircase landscape with n = 2*steps parameters and a ladder of rung sizes d spanning the expected temperatures; optimiser runs with consecutive seeds are pooled until every loop has the target number of exact-d downhill trials. Per (loop, rung) the acceptance frequency gives a Hoeffding interval for kT. Non-trivial: at least one (loop, rung) cell with both accepted and rejected trials (or, for kt_start = 0, at least 1000 downhill trials). Distinct: hash over all pooled histories.".into()
     }
     fn runs(&self, tier: Tier) -> u64 {
         match tier {
@@ -452,13 +464,16 @@ impl Check for C18 {
         let target = j.get("trials_per_loop_target").and_then(|x| x.as_u64()).ok_or("target")?;
         let b_order = j.get("builder_order").and_then(|x| x.as_u64()).unwrap_or(0);
         let b_prior = j.get("builder_prior").and_then(|a| a.as_arr()).and_then(|a| Some((a.get(0)?.as_u64()?, a.get(1)?.as_u64()?)));
+        let until_converged = j.get("until_converged").and_then(|x| x.as_bool()).unwrap_or(false);
         let inner_eff = inner.min(steps).max(1);
-        let loops = steps / inner_eff;
-        if loops == 0 {
+        let loops_requested = steps / inner_eff;
+        if loops_requested == 0 {
             return Err("C18 scenario without a loop".into());
         }
+        // loops that are executed and measured
+        let loops = if until_converged { loops_requested.min(6) } else { loops_requested };
         // ladder: geometric rungs from 0.3*kT_min to 3*kT_max over the temperatures the request implies
-        let exp_range = expected_factor_range(kt_start, kt_finish, kt_ratio, loops);
+        let exp_range = expected_factor_range(kt_start, kt_finish, kt_ratio, loops_requested);
         let kt_lo = if kt_start == 0.0 {
             0.01
         } else {
@@ -482,7 +497,7 @@ impl Check for C18 {
             d *= 2.0;
         }
         let nr = ladder.len();
-        let n = (2 * steps as usize).max(64);
+        let n = (2 * (loops * inner_eff) as usize).max(64);
         let ps = stair_space(n, salt);
         let mut ls = LandSpec::simple("staircase", salt);
         ls.ladder = ladder.clone();
@@ -508,12 +523,17 @@ impl Check for C18 {
                 kt_finish,
                 kt_ratio,
                 max_step,
-                convergence: None,
+                convergence: if until_converged { Some(f64::INFINITY) } else { None },
                 seed: base_seed + runs,
                 order: b_order,
                 prior: b_prior,
             };
-            let run = run_e1(&ps, &ls, &cfg)?;
+            if until_converged {
+                super::CALL_BUDGET.with(|b| b.set(6 * inner_eff + 64));
+            }
+            let run = run_e1(&ps, &ls, &cfg);
+            super::CALL_BUDGET.with(|b| b.set(u64::MAX));
+            let run = run?;
             if run.panic.is_some() {
                 // not C18's business (C20); such a configuration gives no temperature reading
                 out.count("probe.run_panicked", 1);
@@ -551,6 +571,7 @@ impl Check for C18 {
         out.count("optimiser_runs", runs);
         out.count("probe.downhill_trials", total_trials);
         out.count("probe.loops_measured", loops);
+        out.count("probe.schedules_of_more_than_2^32_loops", until_converged as u64);
         out.count("probe.multi_loop_scenarios", (loops >= 2) as u64);
         out.count("probe.kt_start_zero_scenarios", (kt_start == 0.0) as u64);
         out.count("probe.kt_finish_scenarios", (kt_finish.is_some() && kt_ratio.is_none() && kt_start > 0.0) as u64);
@@ -643,7 +664,7 @@ impl Check for C18 {
                     let what = if kt_ratio.is_some() {
                         format!("1 - kt_ratio = {:e}", a)
                     } else {
-                        format!("the factor taking kt_start = {:e} to kt_finish = {:e} in {} loops (within one cooling step): [{:e}, {:e}]", kt_start, kt_finish.unwrap(), loops, a, b)
+                        format!("the factor taking kt_start = {:e} to kt_finish = {:e} in {} loops (within one cooling step): [{:e}, {:e}]", kt_start, kt_finish.unwrap(), loops_requested, a, b)
                     };
                     out.violate(Violation::new(
                         "wrong-cooling-factor",
@@ -767,7 +788,11 @@ pub fn exec_c20_unbounded(j: &J) -> Result<RunOut, String> {
 }
 
 pub fn gen_c20_e1(rng: &mut Rng, _tier: Tier) -> J {
-    let ps = gen_params(rng, &[(1, 1), (2, 3), (3, 3), (6, 3), (64, 1)]);
+    let mut ps = gen_params(rng, &[(1, 1), (2, 3), (3, 3), (6, 3), (64, 1)]);
+    if rng.chance(0.04) {
+        // F-outside taken to its end: ranges whose bounds are the wrong way round
+        ps.range_mode = "inverted".into();
+    }
     let ls = gen_land_general(rng, false);
     let steps = *rng.pick(&C20_LENS);
     let inner = if rng.chance(0.8) { *rng.pick(&C20_LENS) } else { rng.range_u64(1, 40) };
